@@ -24,6 +24,47 @@ def bulk_hook(w, job, part):
         if w.rnd.random() < 0.3: w.op_destroy(se)
         if any(f.prop in ('C19', 'MODEL') for f in w.findings): return
 
+def search_while_another_process_writes(ctx, backend):
+    """completeness does not depend on what other processes are doing: one process searches over and over for five public token objects that nobody touches, while a second process
+    creates other objects on the same token with its file-system operations slowed down (so that its write transactions / file locks are held for a long time); every search must
+    return exactly the five"""
+    from p11client import Died, Hang
+    ck = ctx.ck; d = ctx.dir('c19w'); X = []
+    try:
+        x = ctx.new_exec('asan', d, backend); X.append(x); assert x.call('C_Initialize', locking='os')['rv'] == 0
+        slot = x.call('C_GetSlotList', count=8)['slots'][-1]; assert x.call('C_InitToken', slot=slot, pin=b'so-pin-19w'.hex(), label=b'c19w'.hex())['rv'] == 0
+        s = x.call('C_OpenSession', slot=slot)['h']
+        for i in range(5): assert x.call('C_CreateObject', s=s, tmpl=x.T({'CKA_CLASS': ck.CKO_DATA, 'CKA_TOKEN': True, 'CKA_PRIVATE': False, 'CKA_LABEL': b'keep-%d' % i, 'CKA_APPLICATION': b'keep', 'CKA_VALUE': b'k' * 16}))['rv'] == 0
+        x.call('C_Finalize'); x.close(); X = []
+        A = ctx.new_exec('asan', d, backend, reuse_dir=True); B = ctx.new_exec('asan', d, backend, reuse_dir=True); X = [A, B]; S = []
+        for y in X:
+            y.timeout = 900; assert y.call('C_Initialize', locking='os')['rv'] == 0
+            sl = [q for q in y.call('C_GetSlotList', count=8)['slots'] if y.call('C_GetTokenInfo', slot=q)['flags'] & ck.CKF_TOKEN_INITIALIZED][0]; S.append(y.call('C_OpenSession', slot=sl)['h'])
+        nsearch = ctx.q(150, 400); ncreate = ctx.q(8, 24)
+        sa = []
+        for i in range(nsearch): sa += [{'fn': 'C_FindObjectsInit', 's': S[0], 'tmpl': A.T({'CKA_APPLICATION': b'keep'})}, {'fn': 'C_FindObjects', 's': S[0], 'max': 50}, {'fn': 'C_FindObjectsFinal', 's': S[0]}, {'fn': 'X_Sleep', 'us': 40000 if backend == 'db' else 15000}]
+        sb = [{'fn': 'C_CreateObject', 's': S[1], 'tmpl': B.T({'CKA_CLASS': ck.CKO_DATA, 'CKA_TOKEN': True, 'CKA_PRIVATE': False, 'CKA_LABEL': b'other-%d' % i, 'CKA_APPLICATION': b'other', 'CKA_VALUE': b'o' * 16})} for i in range(ncreate)]
+        B.call('fs', mode='delay', root=d + '/tokens', seed=ctx.seed, p=0.5, maxus=8000 if backend == 'db' else 6000)      # ~700 (db) / ~200 (file) operations per create: a write transaction is held for some hundred milliseconds
+        B.send({'fn': 'threads', 'scripts': [sb], 'timeout': 900}); A.send({'fn': 'threads', 'scripts': [sa], 'timeout': 900})
+        ra = A.recv(900)['results'][0]; rb = B.recv(900)['results'][0]; B.call('fs', mode='off')
+        b0 = min(st['ns_call'] for st in rb); b1 = max(st['ns_ret'] for st in rb); during = 0; bad = 0
+        for i in range(nsearch):
+            init, fo = ra[4 * i], ra[4 * i + 1]; overl = init['ns_ret'] > b0 and init['ns_call'] < b1; during += overl
+            if init['rv'] != 0 or fo['rv'] != 0 or fo.get('n') != 5:
+                bad += 1
+                if bad == 1: ctx.violation(f'C_FindObjects|{backend},another-process-writing-other-objects|found-{fo.get("n") if init["rv"] == 0 else ck.rv(init["rv"])}-instead-of-5', 'a search for five untouched public token objects did not return exactly these five while another process was creating other objects on the token', {'backend': backend, 'search': i, 'init': ck.rv(init['rv']), 'n': fo.get('n'), 'overlapped_the_writer': bool(overl)})
+        ok_creates = sum(1 for st in rb if st['rv'] == 0)
+        ctx.case(('search-during-writes', backend, during > 0), nontrivial=during > 0 and ok_creates > 0, sample={'search_during_writes': {'backend': backend, 'searches': nsearch, 'searches_overlapping_the_writer': during, 'creates_ok': ok_creates, 'wrong_answers': bad}}, n=nsearch)
+        ctx.extra.setdefault('search_during_writes', {})[backend] = {'searches': nsearch, 'searches_overlapping_the_writer': during, 'creates_ok': ok_creates, 'writer_ms': (b1 - b0) // 1000000, 'wrong_answers': bad}
+        if not during: ctx.inconc(f'search-during-writes ({backend}): no search overlapped the writer')
+        for y in X: y.call('C_Finalize'); y.close()
+        X = []
+    except AssertionError as e: ctx.inconc(f'search-during-writes could not run ({backend}): {e!r}')
+    except Died as e: ctx.observe('side:C17 library terminated the host', {'kind': e.kind(), 'fn': e.fn}); ctx.inconc(f'executor died in search-during-writes ({backend})')
+    except Hang: ctx.inconc(f'hang in search-during-writes ({backend})')
+    finally:
+        for y in X: y.kill()
+
 def run(ctx):
     ctx.rule = ('random populations (8-60 objects of 3 classes on two tokens, token/session x private/public, many shared attribute values) x templates of 0..3 entries '
                 '(values of existing objects incl. private ones, absent attributes, wrong-sized and empty values) x five session states x random batch-size sequences (0,1,2,3,5,40); '
@@ -31,6 +72,8 @@ def run(ctx):
                 'one evaluation = one step/search; distinct = (session state, template size, answer class empty/some/all, batch sizes used)')
     run_walks(ctx, {'C19'}, ctx.q(480, 4000), ctx.q(90, 120), weights=W, backends=ctx.q(('file', 'db'), ('file', 'db')), monitors=(), hook=hook)
     run_walks(ctx, {'C19'}, ctx.q(4, 48), ctx.q(100, 400), weights=W, backends=ctx.q(('file',), ('file', 'db')), monitors=(), hook=bulk_hook)
+    ctx.need('asan')
+    for be in ('file', 'db'): search_while_another_process_writes(ctx, be)
     ctx.extra['searches'] = ctx.extra.get('walk_finds', 0)
     ctx.assumptions += ['CK_BBOOL template values are 0/1; attributes restricted to boolean / ulong / byte-string kinds as the quantifier says', 'defaults of attributes not given at creation are read back once through C_GetAttributeValue']
 if __name__ == '__main__': main('C19', run, min_evaluations=2000, min_distinct=40)
